@@ -409,6 +409,7 @@ func ParsePacket(flowMessage ProtoProducerMessageIf, data []byte, config PacketL
 	for nextParser.Parser != nil && len(data) >= offset { // check that a next parser exists and there is enough data to read
 		parseConfig.Calls = calls[nextParser.ParserIndex]
 		parseConfig.LayerCall = callsLayer[nextParser.LayerIndex]
+		layersBefore := len(flowMessage.GetFlowMessage().LayerStack)
 		res, err := nextParser.Parser(flowMessage.GetFlowMessage(), data[offset:], parseConfig)
 		parseConfig.Layer += 1
 		if err != nil {
@@ -437,7 +438,9 @@ func ParsePacket(flowMessage ProtoProducerMessageIf, data []byte, config PacketL
 		}
 
 		fm := flowMessage.GetFlowMessage()
-		fm.LayerSize = append(fm.LayerSize, uint32(res.Size))
+		if len(fm.LayerStack) > layersBefore { // a size for each layer found, none for a truncated header
+			fm.LayerSize = append(fm.LayerSize, uint32(res.Size))
+		}
 
 		// compares the next layer index with current to determine if it's an encapsulation
 		// IP over IP is the equals case
